@@ -944,7 +944,18 @@ func checkFailureBranchKv(p *Prog, r *Roles, res *Result, f *ssa.Function, casFa
 								}
 							}
 						default:
-							why = "field " + fname + " of the answer built in " + funcName(h) + " is not taken from a read made by that helper after the failed write"
+							// the earlier value is an acceptable answer only when the helper's own re-read failed
+							fallback := false
+							for _, cf := range dominatingFacts(hb) {
+								if cf.X != nil && isNilConst(cf.Y) && ((cf.Op == token.NEQ && cf.Want) || (cf.Op == token.EQL && !cf.Want)) {
+									if rc2, _, ok := extractOf(cf.X); ok && rc2.Parent() == h && rc2.Common().StaticCallee() != nil && errorResultIndex(rc2.Common().Signature()) >= 0 {
+										fallback = true
+									}
+								}
+							}
+							if !fallback {
+								why = "field " + fname + " of the answer built in " + funcName(h) + " is not taken from a read made by that helper after the failed write"
+							}
 						}
 					}
 					if why == "" {
